@@ -1,13 +1,15 @@
 ---- MODULE MC_EpochTrigger ----
 EXTENDS EpochTrigger, Json
-CONSTANT Depth
+CONSTANTS Depth, SampleK
 MCW == 1073741824                                   \* 2^30 stands for 2^64
 MCForceRounds == (0..MaxRound) \cup {MCW - 2, MCW - 1}
-MCForceFew == {0, 1, 3, 5, 7, MCW - 1}
+MCForceFew == {0, 1, 3, 5, MCW - 1}
 LogAppend(h, r) == Append(h, r)
 LogLast(h, r) == <<r>>
+\* behaviour export: one behaviour per transition of the abstract state graph (VIEW cvars), sampled 1 in SampleK
 GenNext  == Len(hist) < Depth /\ Next
 GenSpec  == Init /\ [][GenNext]_vars
-EmitEdge == PrintT("@@B " \o ToJson(hist'))
+EmitEdge == (SampleK = 1 \/ RandomElement(1..SampleK) = 1) => PrintT("@@B " \o ToJson(hist'))
+\* simulation mode: print only complete behaviours
 EmitFull == (Len(hist') = Depth) => PrintT("@@B " \o ToJson(hist'))
 ====
